@@ -88,6 +88,19 @@ impl Job {
 		}
 	}
 
+	/// Verification hook: send one control with an explicit priority (0 normal, 1 high, 2 urgent).
+	#[cfg(watchexec_verif)]
+	pub fn verif_send(&self, control: Control, priority: u8) -> Ticket {
+		self.send_controls(
+			[control],
+			match priority {
+				0 => Priority::Normal,
+				1 => Priority::High,
+				_ => Priority::Urgent,
+			},
+		)
+	}
+
 	/// Send a control message to the command.
 	///
 	/// All control messages are queued in the order they're sent and processed in order.
